@@ -86,13 +86,6 @@ func (e *Engine) newByteSlice(ts []*Term) Slice {
 	return Slice{obj: o, len: n, cap: n, esz: 1}
 }
 
-func (o *Obj) put(i int, v Value) {
-	if o.cells != nil {
-		o.cells[i] = v
-	} else {
-		o.sparse[i] = v
-	}
-}
 
 // indexByteTerms: first index of c in ts, as (found, index) terms.
 func indexByteTerms(ts []*Term, c *Term) *Term {
@@ -786,6 +779,9 @@ func init() {
 				return False, callDone
 			}
 			return c.e.valuesEqual(s.Sub(0, len(lit)), Str{s: lit}), callDone
+		}
+		if r, ok := c.e.symMatchString(pat, s); ok {
+			return r, callDone
 		}
 		panic(pathEnd{kind: endUnsupported, msg: "regexp " + pat + " on symbolic input"})
 	}
